@@ -507,6 +507,58 @@ pub fn run_caps(rep: &mut Report, only: Option<&str>) {
             }
         }
     }
+    if want("table") {
+        // K: the row / cell bookkeeping of the real NodeTable against the Lean recursion the cap theorem is about
+        let m = Model::from_env();
+        let mut bt = Batch::new();
+        let mut r = Rng::new(0xC06_CA9);
+        let mut cases: Vec<(usize, Vec<usize>)> = vec![(1000, vec![1; 800]), (2000, vec![1; 300]), (1500, (0..700).map(|i| 1 + i % 3).collect())];
+        for _ in 0..60 {
+            let cols = r.range(1, 9);
+            let n = r.range(0, 9);
+            cases.push((cols, (0..n).map(|_| r.range(1, 12)).collect()));
+        }
+        for (cols, widths) in cases {
+            let mut md = String::new();
+            md.push_str(&"|a".repeat(cols));
+            md.push_str("|\n");
+            md.push_str(&"|-".repeat(cols));
+            md.push_str("|\n");
+            for w in &widths {
+                md.push_str(&"|x".repeat(*w));
+                md.push('\n');
+            }
+            let got = catch_unwind(AssertUnwindSafe(|| {
+                let arena = Arena::new();
+                let root = parse_document(&arena, &md, &o);
+                let t = root.descendants().find_map(|x| match x.data.borrow().value {
+                    NodeValue::Table(ref t) => Some((t.num_columns, t.num_rows, t.num_nonempty_cells)),
+                    _ => None,
+                });
+                t
+            }));
+            let input = format!("cap tablek {} {}", cols, widths.iter().map(|w| w.to_string()).collect::<Vec<_>>().join(","));
+            match got {
+                Ok(Some((c, rows, nonempty))) if c == cols => {
+                    // (the header row is not counted: its `incr_table_row_count` is applied to the paragraph it replaces)
+                    let real = format!("{} {} {}", rows, (c * rows).saturating_sub(nonempty), nonempty);
+                    let ks = if widths.is_empty() { "".to_string() } else { widths.iter().map(|w| w.to_string()).collect::<Vec<_>>().join(",") };
+                    if ks.is_empty() {
+                        continue;
+                    }
+                    bt.push(format!("c06cap {} {}", cols, ks), move |resp, rep| {
+                        rep.k_evals += 1;
+                        if resp != real {
+                            rep.disagree("table-cap-bookkeeping", input, format!("real <accepted rows> <autocompleted> <in source> = {} model = {}", real, resp));
+                        }
+                    });
+                }
+                Ok(_) => rep.count("cap-k-skipped-no-table"),
+                Err(_) => rep.count("cap-k-skipped-panic"),
+            }
+        }
+        bt.run(&m, rep);
+    }
     if want("nesting") {
         for (marker, n) in [("- ", 400usize), ("1. ", 400), ("- ", 3000), ("> - ", 300), ("+ ", 150)] {
             let md = format!("{}x\n", marker.repeat(n));
